@@ -175,21 +175,40 @@ def comp(typ: int, value: bytes) -> bytes:
     return tlv(typ, value)
 
 
+def _pct(s: str) -> bytes:
+    out = bytearray()
+    i = 0
+    while i < len(s):
+        if s[i] == '%' and i + 2 < len(s) + 0 and all(c in '0123456789abcdefABCDEF' for c in s[i + 1:i + 3]):
+            out.append(int(s[i + 1:i + 3], 16))
+            i += 3
+        else:
+            out += s[i].encode()
+            i += 1
+    return bytes(out)
+
+
+TYPED = {'seg': T_SEGMENT, 'off': 0x34, 'v': 0x36, 't': 0x38, 'seq': 0x3a}
+
+
 def name_from_uri(uri: str):
-    """Tiny URI parser for the simulator's own names: /a/b, typed as `8=...` not supported, plus
-    `seg=<n>`, `sha256digest=<hex>`, `params-sha256=<hex>`."""
+    """URI parser for the simulator's own names (the subset of the NDN URI scheme the scenarios use):
+    /a/b, percent-escapes, `<decimal type>=value`, seg= off= v= t= seq= (numbers), sha256digest=<hex>, params-sha256=<hex>."""
     comps = []
     for part in uri.split('/'):
         if part == '':
             continue
-        if part.startswith('seg='):
-            comps.append(tlv(T_SEGMENT, nni_min(int(part[4:]))))
-        elif part.startswith('sha256digest='):
-            comps.append(tlv(T_IMPLICIT_DIGEST, bytes.fromhex(part[13:])))
-        elif part.startswith('params-sha256='):
-            comps.append(tlv(T_PARAMS_DIGEST, bytes.fromhex(part[14:])))
+        head, sep, tail = part.partition('=')
+        if sep and head in TYPED and tail.isdigit():
+            comps.append(tlv(TYPED[head], nni_min(int(tail))))
+        elif sep and head == 'sha256digest':
+            comps.append(tlv(T_IMPLICIT_DIGEST, bytes.fromhex(tail)))
+        elif sep and head == 'params-sha256':
+            comps.append(tlv(T_PARAMS_DIGEST, bytes.fromhex(tail)))
+        elif sep and head.isdigit():
+            comps.append(tlv(int(head), _pct(tail)))
         else:
-            comps.append(tlv(T_GENERIC, part.encode()))
+            comps.append(tlv(T_GENERIC, _pct(part)))
     return comps
 
 
